@@ -55,6 +55,7 @@ impl Rng {
 
 thread_local! {
     static LAST_PANIC: RefCell<Option<String>> = const { RefCell::new(None) };
+    static IN_GUARD: RefCell<bool> = const { RefCell::new(false) };
 }
 
 /// Install a panic hook which records message + location instead of printing.
@@ -71,6 +72,10 @@ pub fn install_panic_hook() {
             .location()
             .map(|l| format!("{}:{}", l.file(), l.line()))
             .unwrap_or_default();
+        if !IN_GUARD.with(|g| *g.borrow()) {
+            // a bug in the harness itself, not in the code under test
+            eprintln!("HARNESS PANIC: {} @ {}", msg, loc);
+        }
         LAST_PANIC.with(|p| *p.borrow_mut() = Some(format!("{} @ {}", msg, loc)));
     }));
 }
@@ -126,7 +131,10 @@ fn classify(payload: Box<dyn Any + Send>) -> Ended {
 /// Run code under test; a panic or typed unwind is data, not failure.
 pub fn guarded<R>(f: impl FnOnce() -> R) -> (Option<R>, Ended) {
     LAST_PANIC.with(|p| *p.borrow_mut() = None);
-    match catch_unwind(AssertUnwindSafe(f)) {
+    IN_GUARD.with(|g| *g.borrow_mut() = true);
+    let r = catch_unwind(AssertUnwindSafe(f));
+    IN_GUARD.with(|g| *g.borrow_mut() = false);
+    match r {
         Ok(r) => (Some(r), Ended::Returned),
         Err(payload) => (None, classify(payload)),
     }
